@@ -79,6 +79,8 @@ inline bytes gen_seed()
     n = (size_t)g::range(0, 17);
   else if (kind < 6)
     n = (size_t)g::oneof<long>({55, 56, 57, 63, 64, 65, 119, 120, 127, 128, 183, 184, 200, 255});
+  else if (kind < 8)
+    n = (size_t)g::oneof<long>({254, 255, 256, 257, 258, 300, 311, 312, 511, 512, 513, 600}); // the CLI passes a 256-byte random buffer
   else
     n = (size_t)g::range(0, 256);
   bytes b = expand(g::u64(), n, 0);
